@@ -14,7 +14,7 @@ LEVEL = "exploration"
 RULE = ("(A) batches of 1..3 designs x every new/already-evaluated mix x the same batch evaluated 1..3 times x min/max x serial and "
         "(2-worker model executor, default schedule) parallel path; (B) one design x m in {1,2} x every min/max/absent assignment x every "
         "cost value (pair) from a 7-value list incl. -0.0 and rounding cases x stored precision {7,3}; (C) constrained problems: every "
-        "ordered pair of constraint outcomes from 5 lists x cost orderings, unconstrained pairs; (D) sweeps with custom (duplicates), "
+        "ordered pair of constraint outcomes from 5 lists x cost orderings, unconstrained pairs, and a constrained design re-sampled after 0/1/2/4 transient failures into the satisfying or violating region; (D) sweeps with custom (duplicates), "
         "uniform, full-factorial, random generators; (E) every SciPy method that runs without a Jacobian and every NLopt algorithm artap "
         "lists x min/max x two start points, 12 iterations, per-call oracle on the scalar bridge. Non-trivial = at least one objective call; "
         "distinct = distinct case tuples.")
@@ -174,6 +174,48 @@ def check_constraints(g1, g2, c1, c2, crit):
     return out
 
 
+def check_constraints_retry(start_feasible, draw, fails):
+    """The marker must belong to the finally stored vector also when the design was re-sampled after a failure."""
+    from artap.algorithm import DummyAlgorithm
+    from artap.individual import Individual
+    from ..core import shim as shim_mod
+    from .c_support import make_problem
+    st = {"n": 0}
+
+    def before(problem, individual):
+        st["n"] += 1
+        if st["n"] <= fails:
+            raise (TimeoutError if st["n"] % 2 else RuntimeError)("transient")
+    problem = make_problem(n_params=1, bounds=[[0.0, 1.0]], criteria=["minimize"], f=lambda v: [v[0] + 1.0],
+                           g=lambda x: [x[0] - 0.5], before=before)
+    alg = DummyAlgorithm(problem)
+    ind = Individual([0.25 if start_feasible else 0.75])
+
+    class Forced:
+        def force_unit(self, b):
+            return draw
+
+        def choose(self, kind, n, price=1, label=None):
+            return 0
+    sh = shim_mod.install()
+    sh.reset(5, Forced())
+    desc = "start %s, re-sampled coordinate %r after %d transient failures" % ("feasible" if start_feasible else "violating", draw, fails)
+    try:
+        alg.evaluate([ind])
+    except Exception as e:
+        return [("C05:constraints-retry:exception:%s" % type(e).__name__, "evaluate raised %r; %s" % (e, desc))]
+    finally:
+        sh.ctx = None
+    want_marker = not (ind.vector[0] - 0.5 < 0)
+    out = []
+    if bool(ind.costs_signed[-1]) != want_marker:
+        out.append(("C05:constraints-retry:marker-not-of-final-vector:%s" % ("satisfying-marked-violating" if not want_marker else "violating-marked-satisfying"),
+                    "final vector %r has g=%r but marker %r; %s" % (ind.vector, ind.vector[0] - 0.5, ind.costs_signed[-1], desc)))
+    if list(ind.costs) != [ind.vector[0] + 1.0]:
+        out.append(("C05:constraints-retry:costs", "costs %r for vector %r; %s" % (ind.costs, ind.vector, desc)))
+    return out
+
+
 # ---------------------------------------------------------------- (D) sweeps
 def check_sweep(kind, arg):
     from artap.algorithm_sweep import SweepAlgorithm
@@ -321,6 +363,11 @@ def _shard(shard, col: Collector):
                 for g1 in GLISTS:
                     for g2 in GLISTS:
                         rec("constraints", {"g1": g1, "g2": g2, "c1": c1, "c2": c2, "crit": crit}, check_constraints(g1, g2, c1, c2, crit))
+        for start_feasible in (True, False):
+            for draw in (0.1, 0.4, 0.6, 0.9):
+                for fails in (0, 1, 2, 4):
+                    rec("cretry", {"start_feasible": start_feasible, "draw": draw, "fails": fails},
+                        check_constraints_retry(start_feasible, draw, fails), fails > 0)
         col.sample({"kind": "constraints", "g1": [-1.0, -2.0], "g2": [0.0], "costs": [2.0, 1.0]}, 1)
     elif kind == "sweep":
         lat = [(0.0, 0.0), (1.0, -2.0), (0.5, 2.0)]
@@ -354,6 +401,8 @@ def replay(sub, case):
         return check_signed(tuple(case["costs"]), tuple(case["crits"]), case["prec"])
     if sub == "constraints":
         return check_constraints(case["g1"], case["g2"], case["c1"], case["c2"], case["crit"])
+    if sub == "cretry":
+        return check_constraints_retry(case["start_feasible"], case["draw"], case["fails"])
     if sub == "sweep":
         arg = dict(case["arg"])
         if "vectors" in arg:
